@@ -247,7 +247,7 @@ def rule_hoist_spans(ck):
     saved = lambda x: sym.op("call", sym.op("attr", x, "save"))
     where = "insns::RegisterModeOperandStub.encode.hoist" if ck.repo.has_func("insns::RegisterModeOperandStub.encode.hoist") else "insns::RegisterModeOperandStub.encode"
     for text, want, mode, last, paths, toks in c01.hoist_cases(ck.repo):
-        if text in ("a(R)",):
+        if text.split("(")[0] == "a":     # plain index: nothing is rebuilt
             continue
         rets = [p for p in paths if p.kind == "return"]
         if len(rets) != 1:
@@ -278,6 +278,8 @@ def rule_hoist_spans(ck):
 
 def run(ck):
     ck.run_rule("C17.hoist", "nodes rebuilt by hoisting keep the spans of the text they stand for", 6, rule_hoist_spans)
+    from ..rules import deliver
+    ck.run_rule("R.deliver", "the handler receives a report's spans as given: the first span is the culprit", 6, deliver.rule_deliver)
     ck.run_rule("G9", "report spans: one token, or ordered and equally fresh snapshots", 120, rule_G9)
     ck.run_rule("C17.tok", "tokens store snapshots; contexts are per file", 3, rule_token)
     ck.run_rule("C17.col", "line:column formula and its sibling in the graphical renderer", 3, rule_column)
